@@ -301,6 +301,19 @@ class FnSplicer:
             else:
                 self.segs.insert(toks[kwi + 1].end, '<%s: %s>' % (tyname, trait_name), tag + '/dyn-to-generic', order=0)
             self.counts['dyn-to-generic'] = self.counts.get('dyn-to-generic', 0) + 1
+        # Rule 'sig-tokens': exact token sequences of the SIGNATURE (between `fn name` and the body) replaced by given text,
+        # each exactly once: [(tokens, replacement)] - e.g. a generic `I: IntoIterator<Item = &T>` parameter checked at `&[T]`
+        for pattern, replacement in (spec.get('sig_token_rewrites') or []):
+            want = [t.text for t in lex(pattern) if t.kind not in ('comment', 'doc')]
+            bo = pclose
+            while toks[bo].text != '{':
+                bo += 1
+            hits = [k for k in range(kwi, bo - len(want) + 1) if all(toks[k + o].text == w for o, w in enumerate(want))]
+            if len(hits) != 1:
+                raise ExtractError('lost anchor: `%s` occurs %d times in the signature of %s' % (pattern, len(hits), tag))
+            h = hits[0]
+            self.segs.rewrite(toks[h].start, toks[h + len(want) - 1].end, replacement, 'sig-tokens')
+            self.counts['sig-tokens'] = self.counts.get('sig-tokens', 0) + 1
         # Rule 'param-tuple': a function parameter written as a tuple pattern, `(a, b): T`, becomes `verif_pN: T` with
         # `let (a, b) = verif_pN;` first in the body (Verus accepts only plain parameter names; the same destructuring, under
         # the same default binding modes)
